@@ -98,8 +98,8 @@ func CheckRotation(g *rg.G, rot [][]int) error {
 			for !seen[off[a]+ai] {
 				seen[off[a]+ai] = true
 				b := rot[a][ai]
-				j := pos[b][a] // a is a neighbour of b (checked: symmetric graph) ...
-				if _, ok := pos[b][a]; !ok {
+				j, ok := pos[b][a]
+				if !ok {
 					return fmt.Errorf("rot[%d] lacks %d", b, a)
 				}
 				a, ai = b, (j+1)%len(rot[b])
